@@ -6,8 +6,8 @@
    are in Proofs/ScoId*.v.                                                        *)
 From Coq Require Import String NArith ZArith List Bool Permutation.
 From V Require Import Base.UString Base.Json Model.JcsText Model.Jcs Model.ScoId Gen.ScoIdTables Model.ScoIdRun
-  Spec.Rfc8785 Spec.JcsSpec Spec.JsonParse Spec.ScoIdSpec
-  Proofs.ScoIdFacts Proofs.ScoIdProofs Proofs.ScoIdHashFacts.
+  Spec.Rfc8785 Spec.JcsSpec Spec.JsonParse Spec.ScoIdSpec Spec.ScoIdOrder
+  Proofs.ScoIdFacts Proofs.ScoIdProofs Proofs.ScoIdHashFacts Proofs.ScoIdOrderFacts Proofs.ScoIdOrderProofs.
 Import ListNotations.
 Open Scope N_scope.
 
@@ -41,6 +41,42 @@ Theorem id_order_indep_contrib_list : forall uuid5 prefs hp ty contrib contrib' 
   gen_id uuid5 prefs hp ty contrib obj = gen_id uuid5 prefs hp ty contrib' obj.
 Proof. exact id_contrib_order_proof. Qed.
 Print Assumptions id_order_indep_contrib_list.
+
+(* nested dictionary order: objects holding the same properties, each value the same
+   up to the order of dictionaries / nested object members at any depth, get the same
+   id -- unconditionally for the repaired hash fallback, and for the pinned one when
+   `hashes` holds a preferred algorithm *)
+Theorem id_order_indep_nested : forall uuid5 prefs hp ty contrib obj obj',
+  same_props obj obj' -> Forall (fun kv => pnodup (snd kv)) obj ->
+  Forall (fun kv => fst kv = k_hashes -> hash_ok prefs hp (snd kv)) obj ->
+  gen_id uuid5 prefs hp ty contrib obj = gen_id uuid5 prefs hp ty contrib obj'.
+Proof. exact id_order_indep_nested_proof. Qed.
+Print Assumptions id_order_indep_nested.
+
+(* _make_json_serializable maps values equal up to dictionary order to JSON values
+   equal up to member order (or fails on both) *)
+Theorem jsonable_order : forall v w, pperm v w -> pnodup v -> Rres (jsonable v) (jsonable w).
+Proof. exact jsonable_pperm. Qed.
+Print Assumptions jsonable_order.
+
+Example id_order_indep_nested_hyps_satisfiable :
+  let v1 := PDict [(u "pdf-ext", PDict [(u "version", PStr (u "1.7")); (u "is_optimized", PBool false)]); (u "ntfs-ext", PDict [(u "sid", PStr (u "S-1"))])] in
+  let v2 := PDict [(u "ntfs-ext", PDict [(u "sid", PStr (u "S-1"))]); (u "pdf-ext", PDict [(u "is_optimized", PBool false); (u "version", PStr (u "1.7"))])] in
+  let h1 := PDict [(u "SHA-256", PStr (u "aa")); (u "SSDEEP", PStr (u "3:a:b"))] in
+  let h2 := PDict [(u "SSDEEP", PStr (u "3:a:b")); (u "SHA-256", PStr (u "aa"))] in
+  same_props [(u "extensions", v1); (u "hashes", h1)] [(u "extensions", v2); (u "hashes", h2)] /\
+  pnodup v1 /\ pnodup h1 /\ hash_ok gen_hash_prefs ByDictOrder h1.
+Proof.
+  cbv zeta. split; [|split; [|split]].
+  - constructor; [|constructor; [|constructor]].
+    + split; [reflexivity|]. simpl. eapply pp_dict; [|apply perm_swap].
+      constructor; [split; [reflexivity|]|constructor; [split; [reflexivity|apply pp_refl]|constructor]].
+      simpl. eapply pp_dict; [|apply perm_swap]. repeat constructor.
+    + split; [reflexivity|]. simpl. eapply pp_dict; [|apply perm_swap]. repeat constructor.
+  - repeat constructor; simpl; intuition discriminate.
+  - repeat constructor; simpl; intuition discriminate.
+  - right. intros h E. inversion E; subst. vm_compute. discriminate.
+Qed.
 
 (* ---- the choice of one hash ----------------------------------------------------------------- *)
 Theorem id_hash_choice : forall hp (h : list (ustring * pval)),
